@@ -3,9 +3,12 @@ import PolyVerif.Lemmas.BoothLex
 C12 — the Booth loop (`seqhash.boothLeastRotation` / `RotateSequence`), proved about the model
 `Seqhash.booth` / `Seqhash.rotateSequence` for strings of EVERY length.
 
-The model returns `none` exactly where Go would panic (index out of range) or where the inner
-loop's fuel `characterIndex + 1` would be exhausted; so `… = some _` says: every index expression
-of the loop is in bounds and the inner loop terminates within its fuel.
+The model returns `none` in every state in which Go would panic — an index at or above the length
+(`xs[i]?`, explicit size tests) or below zero (every subtraction of the loop is guarded by `≤`,
+because `Nat` subtraction would silently truncate) — and also where the inner loop's fuel
+`characterIndex + 1` would be exhausted or `leastRotationIndex` would be assigned a negative value;
+so `… = some _` says: every index expression of the loop is in bounds in both directions, no index
+variable goes negative, and the inner loop terminates within its fuel.
 
 Proof: `Lemmas/BoothSeg.lean` (windows, borders, failure function), `Lemmas/BoothInv.lean` (the
 loop invariants (i)–(iii) of DESIGN §4 C12 and their preservation — KMP border chains plus the
